@@ -123,6 +123,7 @@ Definition sk_bit (s : cpc) (r c : N) : bool :=
 Record Wf (s : cpc) : Prop := {
   wf_nodup : NoDup (tlist s);
   wf_rows : forall x, In x (tlist s) -> x / 64 < 2 ^ c_lgk s;
+  wf_nomax : forall x, In x (tlist s) -> x <> U32MAX;
   wf_zone : windowed s = true -> forall x, In x (tlist s) -> x mod 64 < c_off s \/ c_off s + 8 <= x mod 64;
   wf_win : windowed s = true -> length (c_win s) = Knat (c_lgk s) /\ Forall (fun b => b < 256) (c_win s);
   wf_sparse_off : windowed s = false -> c_off s = 0;
@@ -181,3 +182,4 @@ Proof.
       * assert (c <? c_off s = false) as -> by lia. cbn [orb].
         apply byte_bits_high; [exact Hb|lia].
 Qed.
+
